@@ -239,7 +239,7 @@ def run(ctx):
         return 0
     common.proof_stage(ctx, "CobraModel.Props.C20", extra_scan=["CobraModel/Model/Summary.lean"])
     rng = ctx.rng
-    n = ctx.scale(120, 3000)
+    n = ctx.scale(120, 1200)
     ran, tries = 0, 0
     skipped, kinds = {}, {}
     distinct = set()
